@@ -2,7 +2,7 @@
    rouwenhorst/linspace are the NumQ instance of the generic model (the NumF instance of the same
    text is what the harness compares bit-exactly with NumPy). *)
 From Coq Require Import ZArith QArith Qabs List Bool Lqa Sorted.
-From QE Require Import Base.Num C16.Model C13.Model C13.Proofs.
+From QE Require Import Base.Num C16.Model C13.Model C13.Proofs C13.Proofs2.
 Import ListNotations.
 Open Scope Q_scope.
 
@@ -47,6 +47,30 @@ Theorem C13_rouwenhorst_grid : forall n rho psi mu P y,
   forall j, (j < n)%nat -> nth j y 0 == - psi + natQ j * ((psi - - psi) / natQ (n - 1)) + mu / (1 - rho).
 Proof. exact rw_grid_nth. Qed.
 Print Assumptions C13_rouwenhorst_grid.
+
+(* the Binomial(n-1,1/2) law  pi_j = C(n-1,j)/2^(n-1)  (binom: Pascal's rule, C16 model) is a probability
+   vector and is stationary for P; under it the mean is mu/(1-rho) and the variance psi^2/(n-1),
+   which is sigma^2/(1-rho^2) when psi^2 = (n-1) sigma^2/(1-rho^2) *)
+Theorem C13_binomial_law : forall N,
+  (forall j, 0 <= inject_Z (binom N j) / pow2 N) /\
+  sum_list (map (fun j => inject_Z (binom N j) / pow2 N) (seq 0 (S N))) == 1.
+Proof. exact (fun N => conj (pi_nonneg N) (pi_sums_to_one N)). Qed.
+Print Assumptions C13_binomial_law.
+
+Theorem C13_rouwenhorst_stationary : forall n rho psi mu P y,
+  rouwenhorst n rho psi mu = Some (P, y) ->
+  forall j, sum_list (map (fun i => (inject_Z (binom (n - 1) i) / pow2 (n - 1)) * getQ (nth i P []) j) (seq 0 n))
+            == inject_Z (binom (n - 1) j) / pow2 (n - 1).
+Proof. exact rouwenhorst_stationary. Qed.
+Print Assumptions C13_rouwenhorst_stationary.
+
+Theorem C13_rouwenhorst_uncond : forall n rho psi mu P y,
+  (2 <= n)%nat -> -1 <= rho /\ rho < 1 -> rouwenhorst n rho psi mu = Some (P, y) ->
+  let m := sum_list (map (fun j => getQ y j * pi (n - 1) j) (seq 0 n)) in
+  m == mu / (1 - rho) /\
+  sum_list (map (fun j => (getQ y j - m) * (getQ y j - m) * pi (n - 1) j) (seq 0 n)) == psi * psi / natQ (n - 1).
+Proof. exact rouwenhorst_uncond. Qed.
+Print Assumptions C13_rouwenhorst_uncond.
 
 Example ex_rouwenhorst :
   exists P y, rouwenhorst 5%nat (3 # 5) 2 (1 # 2) = Some (P, y) /\
